@@ -493,6 +493,11 @@ def part_kwargs(kwname, Asub_cls):
         return {'solver': inst}, counter
     if kwname == 'flags':
         return {'hermitian': Asub_cls['hermitian'], 'symmetric': Asub_cls['symmetric']}, None
+    if kwname == 'cg':       # an iterative solver for a positive definite free block (tight tolerance; judged with factor 1e3)
+        if not Asub_cls['posdef']:
+            return None, None
+        import pymoto.solvers as ps
+        return {'solver': ps.CG(tol=1e-12)}, None
     raise KeyError(kwname)
 
 
@@ -723,7 +728,7 @@ def run_soe_point(acc, m, sigs, A, f_idx, p_idx, bf, xp, symlabel, point, counte
 # ----------------------------------------------------------------------------------------------------------------------
 # StaticCondensation
 # ----------------------------------------------------------------------------------------------------------------------
-SC_KW = ['auto', 'splu']
+SC_KW = ['auto', 'splu', 'cg']
 
 
 def exec_sc(case):
@@ -776,6 +781,9 @@ def exec_sc(case):
             if not matches(only, **point):
                 continue
             kw, counter = part_kwargs(kwname, cls_ff)
+            if kw is None:
+                continue      # solver override not documented for this class of free block
+            fac = 1e3 if kwname == 'cg' else 1.0
             sA = pym.Signal('A', store(A, storage))
             mod = pym.StaticCondensation(sA, main=m_idx.copy(), free=f_idx.copy(), **kw)
             acc.points += 1
@@ -812,7 +820,7 @@ def exec_sc(case):
                     done = True
                     break
                 err, _ = alg_err(S, S_ref)
-                ok, bound = check_alg(acc, err, scale_S * max(1.0, cls_ff['cond']) ** 0.5)
+                ok, bound = check_alg(acc, err, scale_S * max(1.0, cls_ff['cond']) ** 0.5, factor=fac)
                 if not ok:
                     acc.violation('sc_schur_complement', dict(base, matrix=symlabel), point, matrix_values=A,
                                   main=m_idx, free=f_idx, got=S, want=S_ref, err=err, bound=bound, step=step)
@@ -827,7 +835,7 @@ def exec_sc(case):
                         xm_full = lm.full_main_response(A, m_idx, f_idx, bm)
                         xm_cond = np.linalg.solve(S, bm)
                         err, _ = alg_err(xm_cond, xm_full)
-                        ok, bound = check_alg(acc, err, maxabs(xm_full) * max(1.0, cond_S, cond_mf))
+                        ok, bound = check_alg(acc, err, maxabs(xm_full) * max(1.0, cond_S, cond_mf), factor=fac)
                         if not ok:
                             acc.violation('sc_main_response', dict(base, matrix=symlabel), point, matrix_values=A,
                                           main=m_idx, free=f_idx, load=bm, condensed=xm_cond, full=xm_full, err=err,
@@ -855,7 +863,7 @@ def exec_sc(case):
                     first = S.copy()
                 else:
                     err, _ = alg_err(S, first)
-                    ok, bound = check_alg(acc, err, maxabs(first) * 1e2)
+                    ok, bound = check_alg(acc, err, maxabs(first) * 1e2, factor=fac)
                     if not ok:
                         acc.violation('repeat_differs', dict(base), point, err=err, bound=bound)
                         done = True
